@@ -67,6 +67,11 @@ def p_aug_member(o, k):
     o = (o, o.v)[0]
     return o._d, k
 
+def p_slice(xs):
+    xs[note(1):] = [note(9)]
+    xs[(a := note(0)):1] = [note(7), a]
+    return xs
+
 def p_match(p):
     match p:
         case [a, *rest] if note(("guard", a)):
@@ -238,6 +243,7 @@ def _cases(mod):
         ("p_aug", mod.p_aug, lambda: ([0], 3), None),
         ("p_attr_item", mod.p_attr_item, lambda: (Obj(), {}), None),
         ("p_aug_member", mod.p_aug_member, lambda: (mod.Traced(), 3), None),
+        ("p_slice", mod.p_slice, lambda: ([0, 1, 2],), None),
         ("p_match_seq", mod.p_match, lambda: ([1, 2, 3],), None),
         ("p_match_map", mod.p_match, lambda: ({"k": 1, "z": 2},), None),
         ("p_match_str", mod.p_match, lambda: ("text",), None),
